@@ -83,6 +83,8 @@ def ty_join(a, b):
         return a
     if a == b:
         return a
+    if not isinstance(a, str) and not isinstance(b, str) and a[0] == "list" and b[0] == "list":
+        return ("list", ty_join(a[1], b[1]))
     if a == ("opt", None):
         return b if (not isinstance(b, str) and b[0] == "opt") else ("opt", b)
     if b == ("opt", None):
@@ -92,6 +94,40 @@ def ty_join(a, b):
     if not isinstance(b, str) and b[0] == "opt":
         return ty_join(b, a)
     raise Unsupported("incompatible types %r / %r" % (a, b))
+
+
+# action constructors of schedule.py: Lean constructor, argument types
+ACTIONS = {
+    "Forward": ("forward", ["Int", "Int", "Bool", "Bool", "enum"]),
+    "Reverse": ("reverse", ["Int", "Int", "Bool"]),
+    "Copy": ("copy", ["Int", "enum", "enum"]),
+    "Move": ("move", ["Int", "enum", "enum"]),
+    "EndForward": ("endForward", []),
+    "EndReverse": ("endReverse", []),
+}
+
+ACTION_TEXT = """/-- the six actions of schedule.py, arguments in the constructors' order -/
+inductive PyAction
+  | forward (n0 n1 : Int) (write_ics write_adj_deps : Bool) (storage : StorageType)
+  | reverse (n1 n0 : Int) (clear_adj_deps : Bool)
+  | copy (n : Int) (from_storage to_storage : StorageType)
+  | move (n : Int) (from_storage to_storage : StorageType)
+  | endForward
+  | endReverse
+deriving DecidableEq, Repr, Inhabited
+
+/-- one `yield`: the action and the values of `self._n`, `self._r`, `self._exhausted` at that moment -/
+structure PyEv where
+  act : PyAction
+  n : Int
+  r : Int
+  exhausted : Bool
+deriving DecidableEq, Repr, Inhabited
+
+/-- the canonical client of an online schedule: after an action it calls `finalize(N)` as soon as the forward has
+been told to reach `N` (schedule.py `finalize`: sets `_n = _max_n = N`) -/
+def clientHook (N n : Int) (max_n : Option Int) : Int × Option Int :=
+  if max_n = none ∧ n ≥ N then (N, some N) else (n, max_n)"""
 
 
 class Fn:
@@ -110,7 +146,7 @@ class Ctx:
 
 class FnTr:
     def __init__(self, ctx, node, pname, lean_name, param_types, recursive, cache_step=False, self_fields=None,
-                 src=""):
+                 src="", gen=None):
         self.ctx = ctx
         self.node = node
         self.pname = pname
@@ -126,6 +162,17 @@ class FnTr:
         self.vtypes = dict(self.ptypes)
         for f, t in self.self_fields.items():
             self.vtypes["self." + f] = t
+        self.gen = gen or {}    # generator translation: {"online": bool, "passes": bool}
+        self.local_fns = {}
+        if self.gen:
+            self.vtypes["out_"] = ("list", "PyEv")
+            if self.gen.get("passes"):
+                self.vtypes["passes_left"] = "Int"
+                self.vtypes["passes"] = "Int"
+            if self.gen.get("online"):
+                self.vtypes["clientN"] = "Int"
+        self.nested_params = {a.arg for x in ast.walk(node) if isinstance(x, ast.FunctionDef) and x is not node
+                              for a in x.args.args}
         self.aux = []           # auxiliary definitions (while loops)
         self.nwhile = 0
         self.ret = None
@@ -140,6 +187,9 @@ class FnTr:
                     self.bind(st.targets[0], self.etype(st.value))
                 elif isinstance(st, ast.AugAssign):
                     self.bind(st.target, self.etype(st.value))
+                elif isinstance(st, ast.Call) and isinstance(st.func, ast.Attribute) and st.func.attr == "append" \
+                        and len(st.args) == 1 and self.vkey(st.func.value) is not None:
+                    self.bind(st.func.value, ("list", self.etype(st.args[0])))
                 elif isinstance(st, ast.For):
                     it = st.iter
                     if isinstance(it, ast.Call) and isinstance(it.func, ast.Name) and it.func.id == "range":
@@ -186,6 +236,8 @@ class FnTr:
             return
         if k == "_":
             return
+        if k in self.ptypes or (k.startswith("self.") and k[5:] in self.self_fields):
+            return      # declared types of parameters and object fields are fixed
         self.vtypes[k] = ty_join(self.vtypes.get(k), t)
 
     def etype(self, e):
@@ -205,8 +257,13 @@ class FnTr:
                 return self.vtypes[k]
             if isinstance(e, ast.Name) and e.id in self.ctx.consts:
                 return self.ctx.consts[e.id][1]
+            if isinstance(e, ast.Name) and e.id in self.nested_params:
+                return "Int"
             if isinstance(e, ast.Attribute) and isinstance(e.value, ast.Name) and e.value.id in self.ctx.enums:
                 return ("enum", e.value.id)
+            if isinstance(e, ast.Attribute) and isinstance(e.value, ast.Name) and e.value.id == "sys" \
+                    and e.attr == "maxsize":
+                return "Int"
             return None
         if isinstance(e, ast.BinOp):
             return "Int"
@@ -216,6 +273,11 @@ class FnTr:
             return "Bool"
         if isinstance(e, ast.Tuple):
             return ("tuple", [self.etype(x) for x in e.elts])
+        if isinstance(e, ast.List):
+            t = None
+            for x in e.elts:
+                t = ty_join(t, self.etype(x))
+            return ("list", t)
         if isinstance(e, ast.Subscript):
             bt = self.etype(e.value)
             if bt is not None and not isinstance(bt, str) and bt[0] == "opt":
@@ -264,6 +326,9 @@ class FnTr:
                 if e.attr not in self.ctx.enums[e.value.id]:
                     raise Unsupported("unknown enum member %s.%s" % (e.value.id, e.attr))
                 return "%s.%s" % (e.value.id, e.attr.lower())
+            if isinstance(e, ast.Attribute) and isinstance(e.value, ast.Name) and e.value.id == "sys" \
+                    and e.attr == "maxsize":
+                return "(9223372036854775807 : Int)"
             raise Unsupported("name %s" % ast.dump(e))
         if isinstance(e, ast.BinOp):
             a, b = self.expr(e.left, "num"), self.expr(e.right, "num")
@@ -286,6 +351,8 @@ class FnTr:
             raise Unsupported("unary")
         if isinstance(e, ast.Tuple):
             return "(" + ", ".join(self.expr(x) for x in e.elts) + ")"
+        if isinstance(e, ast.List):
+            return "[" + ", ".join(self.expr(x) for x in e.elts) + "]"
         if isinstance(e, ast.Subscript):
             bt = self.etype(e.value)
             base = self.expr(e.value, "num")
@@ -386,6 +453,8 @@ class FnTr:
         want = "num"
         return "(%s %s %s)" % (self.expr(a, want), sym, self.expr(b, want))
 
+    
+
     def cond(self, e, ind, out):
         """returns Lean text of a decidable Prop for `if`; emits `let c ← …` lines into `out` when an operand is
         effectful and short-circuiting matters"""
@@ -449,23 +518,120 @@ class FnTr:
                         s.append(k)
         return s
 
+    def first_access(self, k, stmts):
+        """'read' / 'write' / None: how `stmts` first touch variable `k` (conservative: 'read' when in doubt)"""
+        for st in stmts:
+            if isinstance(st, ast.Assign) and len(st.targets) == 1:
+                if k in self.used([st.value]):
+                    return "read"
+                tks = [self.vkey(x) for x in (st.targets[0].elts if isinstance(st.targets[0], ast.Tuple)
+                                              else [st.targets[0]])]
+                if k in tks:
+                    return "write"
+                if k in self.used([st.targets[0]]):
+                    return "read"
+                continue
+            if isinstance(st, ast.If):
+                if k in self.used([st.test]):
+                    return "read"
+                a, b = self.first_access(k, st.body), self.first_access(k, st.orelse)
+                if a == "read" or b == "read":
+                    return "read"
+                if a == "write" and b == "write":
+                    return "write"
+                continue
+            if isinstance(st, (ast.While, ast.For)):
+                hdr = [st.test] if isinstance(st, ast.While) else [st.iter]
+                if k in self.used(hdr):
+                    return "read"
+                if isinstance(st, ast.For) and k in [self.vkey(x) for x in ast.walk(st.target)]:
+                    continue
+                if self.first_access(k, st.body) == "read":
+                    return "read"
+                continue
+            if k in self.used([st]):
+                return "read"
+        return None
+
     def live_after(self, k, rest):
         """is the value of `k` read by `rest` before being overwritten? (conservative)"""
-        for st in rest:
-            if isinstance(st, ast.Assign) and len(st.targets) == 1 and self.vkey(st.targets[0]) == k \
-                    and k not in self.used([st.value]):
-                return False
-            if k in self.used([st]):
-                return True
-        return False
+        return self.first_access(k, rest) == "read"
 
     def vn(self, k):
         return lname(k.replace("self.", "self_"))
 
-    def block(self, stmts, ind, defined, in_loop=False):
-        """translate a statement list; `defined` = set of variables already declared (mutated in place)"""
+    def has_jump(self, st):
+        """does the statement contain a `break` / `continue` of the enclosing loop (not of a nested loop)?"""
+        if isinstance(st, (ast.Break, ast.Continue)):
+            return True
+        if isinstance(st, ast.If):
+            return any(self.has_jump(x) for x in st.body + st.orelse)
+        return False
+
+    def emit_yield(self, call, ind, out):
+        """`yield Action(...)`: append the event (action, self._n, self._r, self._exhausted) to the output; for an
+        online schedule the canonical client may then finalise (`clientHook`)"""
+        if not (isinstance(call, ast.Call) and isinstance(call.func, ast.Name) and call.func.id in ACTIONS):
+            raise Unsupported("yield of something that is not an action constructor")
+        nm = call.func.id
+        if call.keywords or len(call.args) != len(ACTIONS[nm][1]):
+            raise Unsupported("action %s with unexpected arguments" % nm)
+        args = []
+        for a, ty in zip(call.args, ACTIONS[nm][1]):
+            if ty == "Int":
+                args.append(self.expr(a, "num"))
+            elif ty == "Bool":
+                args.append(self.expr(a) if self.etype(a) == "Bool" else "(decide %s)" % self.cond_pure(a))
+            else:
+                args.append(self.expr(a))
+        act = "PyAction.%s%s" % (ACTIONS[nm][0], "".join(" " + a for a in args))
+        ex = "self_exhausted" if "self.exhausted" in self.vtypes else "false"
+        out.append("%sout_ := out_ ++ [PyEv.mk (%s) self_n self_r %s]" % (ind, act, ex))
+        if self.gen.get("passes") and nm == "EndReverse":
+            out.append("%spasses_left := passes_left - 1  -- the canonical client stops after `passes` adjoint calculations" % ind)
+        if self.gen.get("online"):
+            out.append("%s(self_n, self_max_n) := clientHook clientN self_n self_max_n" % ind)
+
+    def inline_call(self, name, call, target, ind, defined, out):
+        """`target = f(args)` for a nested `def f` without yields: its body, parameters substituted"""
+        fn = self.local_fns[name]
+        params = [a.arg for a in fn.args.args]
+        if len(call.args) != len(params) or call.keywords:
+            raise Unsupported("call of local function %s" % name)
+        body = [b for b in fn.body if not (isinstance(b, ast.Expr) and isinstance(b.value, ast.Constant))]
+        if not body or not isinstance(body[-1], ast.Return) or body[-1].value is None:
+            raise Unsupported("local function %s must end in `return <expr>`" % name)
+        for b in body[:-1]:
+            for x in ast.walk(b):
+                if isinstance(x, (ast.Return, ast.Yield)):
+                    raise Unsupported("local function %s: early return / yield" % name)
+        out.append("%s-- inlined local function `%s` (line %d)" % (ind, name, fn.lineno))
+        for pn, a in zip(params, call.args):
+            k = "%s_%s" % (name, pn)
+            self.vtypes[k] = self.etype(a) or "Int"
+            out.append("%slet %s : %s := %s" % (ind, self.vn(k), ty_str(self.vtypes[k]), self.expr(a, "num")))
+
+        class Ren(ast.NodeTransformer):
+            def visit_Name(s2, node):
+                if node.id in params:
+                    return ast.copy_location(ast.Name(id="%s_%s" % (name, node.id), ctx=node.ctx), node)
+                return node
+        import copy
+        body2 = [Ren().visit(copy.deepcopy(b)) for b in body]
+        d = set(defined) | {"%s_%s" % (name, pn) for pn in params}
+        sub = self.block(body2[:-1], ind, d) if body2[:-1] else []
+        out.extend(sub)
+        defined |= (d & set(defined))
+        asg = ast.Assign(targets=[target], value=body2[-1].value)
+        ast.copy_location(asg, call)
+        out.extend(self.block([asg], ind, defined))
+
+    def block(self, stmts, ind, defined, in_loop=False, tail=None):
+        """translate a statement list; `defined` = set of variables already declared (mutated in place);
+        `tail` (inside a `while` loop) = what to do when control reaches the end / `continue` / `break`"""
         out = []
         for i, st in enumerate(stmts):
+            rest = stmts[i + 1:]
             if isinstance(st, ast.Expr) and isinstance(st.value, ast.Constant) and isinstance(st.value.value, str):
                 continue  # docstring
             if isinstance(st, ast.Expr) and isinstance(st.value, ast.Call) and \
@@ -473,7 +639,38 @@ class FnTr:
                 out.append("%s-- print(...) dropped (line %d)" % (ind, st.lineno))
                 continue
             if isinstance(st, ast.Pass):
-                out.append("%spure ()" % ind)
+                if tail is None:
+                    out.append("%spure ()" % ind)
+                continue
+            if isinstance(st, ast.Delete):
+                out.append("%s-- del ... dropped (line %d)" % (ind, st.lineno))
+                continue
+            if isinstance(st, ast.FunctionDef):
+                for x in ast.walk(st):
+                    if isinstance(x, (ast.Yield, ast.YieldFrom)):
+                        raise Unsupported("nested generator %s" % st.name)
+                self.local_fns[st.name] = st
+                continue
+            if isinstance(st, ast.Expr) and isinstance(st.value, ast.Yield):
+                if not self.gen:
+                    raise Unsupported("yield outside a generator translation")
+                self.emit_yield(st.value.value, ind, out)
+                continue
+            if isinstance(st, ast.Expr) and isinstance(st.value, ast.Call) and isinstance(st.value.func, ast.Attribute) \
+                    and self.vkey(st.value.func.value) in self.vtypes and st.value.func.attr in ("append", "pop"):
+                k = self.vkey(st.value.func.value)
+                if k not in defined:
+                    raise Unsupported("list %s used before assignment" % k)
+                if st.value.func.attr == "append" and len(st.value.args) == 1:
+                    out.append("%s%s := %s ++ [%s]" % (ind, self.vn(k), self.vn(k), self.expr(st.value.args[0])))
+                elif st.value.func.attr == "pop" and not st.value.args:
+                    out.append("%s%s := (← pyPop %s)" % (ind, self.vn(k), self.vn(k)))
+                else:
+                    raise Unsupported("list method call (line %d)" % st.lineno)
+                continue
+            if isinstance(st, ast.Assign) and len(st.targets) == 1 and isinstance(st.value, ast.Call) and \
+                    isinstance(st.value.func, ast.Name) and st.value.func.id in self.local_fns:
+                self.inline_call(st.value.func.id, st.value, st.targets[0], ind, defined, out)
                 continue
             if isinstance(st, (ast.Assign, ast.AugAssign)):
                 if isinstance(st, ast.Assign):
@@ -502,38 +699,57 @@ class FnTr:
                 if self.is_opt(t) and not self.is_opt(self.etype(st.value if isinstance(st, ast.Assign) else tgt)) \
                         and isinstance(st, ast.Assign):
                     val = "(some %s)" % val
+                if not self.is_opt(t) and isinstance(st, ast.Assign) and self.is_opt(self.etype(st.value)):
+                    val = self.expr(st.value, "num")
                 if k in defined:
                     out.append("%s%s := %s" % (ind, self.vn(k), val))
                 else:
                     out.append("%slet mut %s : %s := %s" % (ind, self.vn(k), ty_str(t), val))
                     defined.add(k)
                 continue
-            if isinstance(st, ast.If) and self.open_else(st) and self.exits(st) and stmts[i + 1:] and not in_loop:
+            if isinstance(st, ast.If) and tail is not None and self.has_jump(st):
+                # a branch leaves the loop body early: the rest of the body moves into both branches
+                out.extend(self.if_push(st, ind, defined, rest, in_loop, tail))
+                return out
+            if isinstance(st, ast.If) and self.open_else(st) and self.exits(st) and (rest or tail is not None) \
+                    and (not in_loop or tail is not None):
                 # every branch of the `if` returns or raises: the rest of the block is its (missing) `else`
                 # (no join point in the generated term: friendlier to proofs, same meaning)
-                out.extend(self.if_stmt(st, ind, defined, in_loop, tail=stmts[i + 1:]))
+                if tail is None:
+                    out.extend(self.if_stmt(st, ind, defined, in_loop, tail=rest))
+                else:
+                    out.extend(self.if_push(st, ind, defined, rest, in_loop, tail))
                 return out
             if isinstance(st, ast.If):
                 # variables first assigned inside the branches and used later must be declared before
                 for k in self.assigned([st]):
-                    if k not in defined and self.live_after(k, stmts[i + 1:]):
+                    if k not in defined and self.live_after(k, rest):
                         out.append("%slet mut %s : %s := default  -- declared for use after the `if` (line %d)" % (
                             ind, self.vn(k), ty_str(self.vtypes.get(k)), st.lineno))
                         defined.add(k)
                 out.extend(self.if_stmt(st, ind, defined, in_loop))
                 continue
+            if isinstance(st, ast.Return) and getattr(st, "_synthetic", False):
+                out.append("%sreturn out_" % ind)
+                if tail is not None:
+                    return out
+                continue
             if isinstance(st, ast.Return):
-                if in_loop:
-                    raise Unsupported("return inside a loop (line %d)" % st.lineno)
+                if in_loop or self.gen:
+                    raise Unsupported("return inside a loop / generator (line %d)" % st.lineno)
                 if st.value is None:
                     out.append("%sreturn ()" % ind)
                 elif self.is_opt(self.etype(st.value)) and not self.is_opt(self.ret):
                     out.append("%sreturn %s" % (ind, self.expr(st.value, "num")))
                 else:
                     out.append("%sreturn %s" % (ind, self.expr(st.value)))
+                if tail is not None:
+                    return out
                 continue
             if isinstance(st, ast.Raise):
                 out.append("%sthrow %s" % (ind, self.exc(st.exc)))
+                if tail is not None:
+                    return out
                 continue
             if isinstance(st, ast.Assert):
                 pre = []
@@ -542,17 +758,39 @@ class FnTr:
                 out.append("%sif ¬ %s then throw .assertionError" % (ind, c))
                 continue
             if isinstance(st, ast.Continue):
+                if tail is not None:
+                    out.extend(tail["cont"](ind))
+                    return out
                 out.append("%scontinue" % ind)
                 continue
+            if isinstance(st, ast.Break):
+                if tail is None:
+                    raise Unsupported("break outside a while loop (line %d)" % st.lineno)
+                out.extend(tail["brk"](ind))
+                return out
             if isinstance(st, ast.For):
-                out.extend(self.for_stmt(st, ind, defined, stmts[i + 1:]))
+                out.extend(self.for_stmt(st, ind, defined, rest))
                 continue
             if isinstance(st, ast.While):
-                out.extend(self.while_stmt(st, ind, defined, stmts[i + 1:]))
+                out.extend(self.while_stmt(st, ind, defined, rest))
                 continue
             raise Unsupported("statement %s (line %d)" % (type(st).__name__, st.lineno))
-        if not out:
+        if tail is not None:
+            out.extend(tail["cont"](ind))
+        elif not out:
             out.append("%spure ()" % ind)
+        return out
+
+    def if_push(self, st, ind, defined, rest, in_loop, tail):
+        """`if c: A else: B; rest` as `if c then (A; rest) else (B; rest)` (both in tail mode)"""
+        out = []
+        pre = []
+        c = self.cond(st.test, ind, pre)
+        out.extend(pre)
+        out.append("%sif %s then" % (ind, c))
+        out.extend(self.block(st.body + rest, ind + "  ", set(defined), in_loop, tail))
+        out.append("%selse" % ind)
+        out.extend(self.block(st.orelse + rest, ind + "  ", set(defined), in_loop, tail))
         return out
 
     def exc(self, e):
@@ -664,37 +902,72 @@ class FnTr:
         self.nwhile += 1
         self.uses_fuel = True
         name = "%s.while%d" % (self.lean_name, self.nwhile)
-        mutated = [k for k in self.assigned(st.body) if k in defined]
-        local = [k for k in self.assigned(st.body) if k not in defined]
+        yields = any(isinstance(x, ast.Yield) for x in ast.walk(st))
+        forever = isinstance(st.test, ast.Constant) and st.test.value is True
+        assigned = self.assigned(st.body)
+        if yields:
+            assigned = assigned + [k for k in ["out_"] + (["passes_left"] if self.gen.get("passes") else []) +
+                                   (["self.n", "self.max_n"] if self.gen.get("online") else []) if k not in assigned]
+        for x in ast.walk(st):   # lists changed by append / pop
+            if isinstance(x, ast.Call) and isinstance(x.func, ast.Attribute) and x.func.attr in ("append", "pop"):
+                k = self.vkey(x.func.value)
+                if k in self.vtypes and k not in assigned:
+                    assigned.append(k)
+        for fn in self.local_fns.values():   # and by inlined local functions
+            called = any(isinstance(x, ast.Call) and isinstance(x.func, ast.Name) and x.func.id == fn.name
+                         for x in ast.walk(st))
+            if called:
+                for k in self.assigned(fn.body) + [self.vkey(x.func.value) for x in ast.walk(fn)
+                                                   if isinstance(x, ast.Call) and isinstance(x.func, ast.Attribute)
+                                                   and x.func.attr in ("append", "pop")]:
+                    if k in self.vtypes and k not in assigned:
+                        assigned.append(k)
+        mutated = [k for k in assigned if k in defined]
+        local = [k for k in assigned if k not in defined]
         for k in local:
             if self.live_after(k, rest):
                 raise Unsupported("variable %s first assigned inside a loop and used after it" % k)
-        readonly = [k for k in self.used([st.test] + st.body) if k in defined and k not in mutated]
+        used = self.used([st.test] + st.body)
+        for fn in self.local_fns.values():
+            if any(isinstance(x, ast.Call) and isinstance(x.func, ast.Name) and x.func.id == fn.name
+                   for x in ast.walk(st)):
+                used += [k for k in self.used(fn.body) if k not in used]
+        if yields:
+            used += [k for k in ["self.n", "self.r"] + (["self.exhausted"] if "self.exhausted" in self.vtypes else [])
+                     if k not in used]
+            if self.gen.get("online") and "clientN" not in used:
+                used.append("clientN")
+        readonly = [k for k in used if k in defined and k not in mutated]
         if not mutated:
             raise Unsupported("while loop that changes nothing")
         for x in ast.walk(st):
-            if isinstance(x, (ast.Break, ast.Continue, ast.Return)):
-                raise Unsupported("%s inside while (line %d)" % (type(x).__name__, x.lineno))
+            if isinstance(x, ast.Return):
+                raise Unsupported("return inside while (line %d)" % x.lineno)
         st_ty = " × ".join(ty_str(self.vtypes[k]) for k in mutated)
         st_pat = ", ".join(self.vn(k) for k in mutated)
         ro = "".join(" (%s : %s)" % (self.vn(k), ty_str(self.vtypes[k])) for k in readonly)
+        roargs = "".join(" " + self.vn(k) for k in readonly)
         lines = []
         lines.append("/-- the `while` loop at line %d of `%s` -/" % (st.lineno, self.pname))
         lines.append("def %s%s : Nat → (%s) → M (%s)" % (name, ro, st_ty, st_ty))
         lines.append("  | 0, _ => throw .fuel")
         lines.append("  | fuel+1, (%s) => do" % st_pat)
         pre = []
-        c = self.cond(st.test, "    ", pre)
+        if forever and self.gen.get("passes"):
+            c = "(passes_left > (0 : Int))"
+        else:
+            c = self.cond(st.test, "    ", pre)
         lines.extend(pre)
         lines.append("    if %s then" % c)
         d = set(defined)
         for k in mutated:
             lines.append("      let mut %s := %s" % (self.vn(k), self.vn(k)))
-        lines.extend(self.block(st.body, "      ", d, in_loop=True))
-        lines.append("      %s%s fuel (%s)" % (name, "".join(" " + self.vn(k) for k in readonly), st_pat))
+        tail = {"cont": lambda i2: ["%s%s%s fuel (%s)" % (i2, name, roargs, st_pat)],
+                "brk": lambda i2: ["%spure (%s)" % (i2, st_pat)]}
+        lines.extend(self.block(st.body, "      ", d, in_loop=True, tail=tail))
         lines.append("    else pure (%s)" % st_pat)
         self.aux.append("\n".join(lines))
-        return ["%s(%s) ← %s%s fuel (%s)" % (ind, st_pat, name, "".join(" " + self.vn(k) for k in readonly), st_pat)]
+        return ["%s(%s) ← %s%s fuel (%s)" % (ind, st_pat, name, roargs, st_pat)]
 
     # ---- the whole function ----
     def translate(self):
@@ -706,17 +979,41 @@ class FnTr:
         pre = []
         # parameters that are re-assigned must become `let mut`
         reassigned = [k for k in self.assigned(body_stmts) if k in self.params]
+        reassigned += [k for k in self.assigned(body_stmts) if k.startswith("self.") and k in defined]
+        if self.gen.get("online"):
+            reassigned += [k for k in ("self.n", "self.max_n") if k not in reassigned]
+        if self.gen:
+            defined.update(["out_"])
+            pre.append("%slet mut out_ : List PyEv := []" % ind)
+            if self.gen.get("passes"):
+                defined.update(["passes_left", "passes"])
+                pre.append("%slet mut passes_left : Int := passes" % ind)
+            if self.gen.get("online"):
+                defined.add("clientN")
         if self.cache_step:
             pre.append("%s-- @cache_step (mixed.py): the wrapper's `s = min(s, n - 1)`; the memo table is elided" % ind)
             pre.append("%slet s : Int := min s (n - 1)" % ind)
         for k in reassigned:
             pre.append("%slet mut %s := %s" % (ind, self.vn(k), self.vn(k)))
+        if self.gen:
+            fin = ast.Return(value=ast.Name(id="out_", ctx=ast.Load()))
+            fin._synthetic = True
+            fin.lineno = self.node.end_lineno
+            body_stmts = list(body_stmts) + [fin]
         body = self.block(body_stmts, ind, defined)
         return pre + body
 
     def emit(self):
+        if self.gen:
+            self.ret = ("list", "PyEv")
         body = self.translate()
         params = "".join(" (%s : %s)" % (self.vn(p), ty_str(self.ptypes[p])) for p in self.params)
+        for f, t in self.self_fields.items():
+            params += " (self_%s : %s)" % (f, ty_str(t))
+        if self.gen.get("passes"):
+            params += " (passes : Int)"
+        if self.gen.get("online"):
+            params += " (clientN : Int)"
         ret = ty_str(self.ret) if self.ret != "Unit" else "Unit"
         hdr = "/-- `%s` (%s) -/" % (self.pname, self.src)
         fuel = self.uses_fuel
@@ -784,24 +1081,49 @@ FUNCTIONS = [
     ("hrevolve_sequences/basic_functions.py", "argmin", "argmin", {"list": ("list", "Int")}, {}),
 ]
 
-ENUMS = [("schedule.py", "StepType")]
+ENUMS = [("schedule.py", "StepType"), ("schedule.py", "StorageType")]
+
+F_BASE = {"n": "Int", "r": "Int", "max_n": ("opt", "Int")}
+# (file, qualified name, lean name, self fields, generator options)
+GENERATORS = [
+    ("basic_schedules.py", "SingleMemoryStorageSchedule._iterator", "singleMemory_iterator", dict(F_BASE),
+     {"online": True, "passes": True}),
+    ("basic_schedules.py", "SingleDiskStorageSchedule._iterator", "singleDisk_iterator",
+     dict(F_BASE, move_data="Bool", exhausted="Bool"), {"online": True, "passes": True}),
+    ("basic_schedules.py", "NoneCheckpointSchedule._iterator", "none_iterator", dict(F_BASE, exhausted="Bool"),
+     {"online": True}),
+    ("multistage.py", "MultistageCheckpointSchedule._iterator", "multistage_iterator",
+     dict(F_BASE, snapshots_in_ram="Int", snapshots_on_disk="Int", storage=("list", ("enum", "StorageType")),
+          trajectory="String", exhausted="Bool"), {"offline": True}),
+    ("twolevel_binomial.py", "TwoLevelCheckpointSchedule._iterator", "twoLevel_iterator",
+     dict(F_BASE, period="Int", binomial_snapshots="Int", binomial_storage=("enum", "StorageType"),
+          trajectory="String"), {"online": True, "passes": True}),
+]
 
 
 def translate_enum(tree, name):
     node = find_def(tree, name)
     members = []
     for st in node.body:
-        if isinstance(st, ast.Assign) and len(st.targets) == 1 and isinstance(st.targets[0], ast.Name) \
-                and isinstance(st.value, ast.Constant) and isinstance(st.value.value, int):
-            members.append((st.targets[0].id, st.value.value))
+        if isinstance(st, ast.Assign) and len(st.targets) == 1 and isinstance(st.targets[0], ast.Name):
+            v = st.value
+            if isinstance(v, ast.UnaryOp) and isinstance(v.op, ast.USub) and isinstance(v.operand, ast.Constant) \
+                    and isinstance(v.operand.value, int):
+                members.append((st.targets[0].id, -v.operand.value))
+            elif isinstance(v, ast.Constant) and (isinstance(v.value, int) or v.value is None) \
+                    and not isinstance(v.value, bool):
+                members.append((st.targets[0].id, v.value))
     if not members:
-        raise Unsupported("enum %s has no integer members" % name)
-    lines = ["/-- `%s` (schedule.py); `toInt` is `int(·)` -/" % name,
+        raise Unsupported("enum %s has no members" % name)
+    if len({repr(v) for _, v in members}) != len(members):
+        raise Unsupported("enum %s has aliased members" % name)
+    lines = ["/-- `%s` (schedule.py)%s -/" % (name, "; `toInt` is `int(·)`" if all(v is not None for _, v in members) else ""),
              "inductive %s | %s" % (name, " | ".join(m.lower() for m, _ in members)),
-             "deriving DecidableEq, Repr, Inhabited", "",
-             "def %s.toInt : %s → Int" % (name, name)]
-    for m, v in members:
-        lines.append("  | .%s => %d" % (m.lower(), v))
+             "deriving DecidableEq, Repr, Inhabited"]
+    if all(v is not None for _, v in members):
+        lines += ["", "def %s.toInt : %s → Int" % (name, name)]
+        for m, v in members:
+            lines.append("  | .%s => %d" % (m.lower(), v))
     return "\n".join(lines), [m for m, _ in members]
 
 
@@ -858,6 +1180,20 @@ def generate(repo):
             status[lean] = "ok"
         except (Unsupported, SyntaxError, OSError, KeyError, IndexError, TypeError, AttributeError) as e:
             status[lean] = "untranslatable: %s: %s" % (type(e).__name__, e)
+    if "StorageType" in enums:
+        chunks.insert(len(enums), ACTION_TEXT)
+        for f, qual, lean, fields, gopts in GENERATORS:
+            try:
+                node = find_def(tree(f), qual)
+                if node.decorator_list:
+                    raise Unsupported("decorated generator")
+                tr = FnTr(ctx, node, qual, lean, {}, False, self_fields=fields, gen=gopts,
+                          src="%s:%d-%d" % (f, node.lineno, node.end_lineno))
+                text, fuel = tr.emit()
+                chunks.append(text)
+                status[lean] = "ok"
+            except (Unsupported, SyntaxError, OSError, KeyError, IndexError, TypeError, AttributeError) as e:
+                status[lean] = "untranslatable: %s: %s" % (type(e).__name__, e)
     header = ("/-\n  GENERATED by harness/py2lean.py from the Python sources of /repo (checkpoint_schedules).\n"
               "  Do not edit: the file is regenerated on every check run and compared with this text.\n-/\n"
               "import CkptGen.Prelude\nset_option linter.unusedVariables false\nnamespace Ckpt.Py\n\n")
